@@ -84,7 +84,7 @@ class LibMap:
         if ct0.startswith("struct vf_fn"):
             if op == "()":
                 f = em.paren(em.E(a0))
-                return self.fn_call(em, n, f, args[1:])
+                return self.fn_call(em, n, f, args[1:], fnt)
             if op == "=":
                 return "%s = %s" % (em.paren(em.E(a0)), em.E(args[1]))
             return None
@@ -120,8 +120,23 @@ class LibMap:
                 return "%s = %s" % (em.paren(em.E(a0)), em.E(args[1]))
         return None
 
-    def fn_call(self, em, n, f, args):
-        """call of a modelled std::function value f (struct vf_fn {fn, env})"""
+    def fn_call(self, em, n, f, args, fnt=None):
+        """call of a modelled std::function / closure value f (struct vf_fn {fn, env}); the parameter passing
+        convention comes from the signature of its operator() when clang prints one, else from the arguments"""
+        avs, pcs = None, []
+        em.callflag = True  # a callback may raise
+        if fnt:
+            try:
+                params = em.fn_params_from(fnt)
+                pcs = em.param_ctypes_from(fnt)
+                ret, isref = em.ret_ctype_from(fnt)
+                if not isref and len(params) == len(args) == len(pcs):
+                    avs = em.call_args(args, params)
+            except Unsupported:
+                avs = None
+        if avs is not None:
+            cast = "%s (*)(%s)" % (ret, ", ".join(["void*"] + pcs))
+            return "((%s)%s.fn)(%s)" % (cast, f, ", ".join(["%s.env" % f] + avs))
         avs, pcs = [], []
         for a in args:
             r = em.infer_arg(a)
@@ -324,6 +339,10 @@ class LibMap:
                 if tag in em.tm.seq_insts or True:
                     em.tm.seq_insts.setdefault(tag, ct[:-1])
                     return "vf_seq_%s_%s_in(%s, %s, %s)" % (tag, name, em.E(args[0]), em.E(args[1]), em.E(args[2]))
+        if name in em.ALGO_BODIES and len(args) == 3:
+            r = em.algo_call(n, name, args)
+            if r is not None:
+                return r
         if name in ("get_pointer",) and len(args) == 1:
             return em.E(args[0])
         if name in MATH1:
@@ -368,6 +387,13 @@ class LibMap:
         if is_scalar(ct):
             if not args:
                 return "((%s)0)" % ct
+            act = self.mapped(em, args[0])
+            if act and act != ct and act.startswith("struct ") and ct.startswith("struct ") and \
+                    act.endswith("*") and ct.endswith("*") and not act.endswith("**") and not ct.endswith("**"):
+                # converting constructor smart_ptr<Derived> -> smart_ptr<Base>: pointer cast, valid when Base is
+                # reached through first bases only (checked at the end of the extraction, see cxx2c.translate)
+                em.upcasts.add((act[7:-1], ct[7:-1]))
+                return "((%s)%s)" % (ct, em.paren(em.E(args[0])))
             return em.E(args[0])
         if ct.startswith("struct vf_seq_"):
             tag = ct[len("struct vf_seq_"):]
@@ -426,8 +452,10 @@ class LibMap:
     def to_vf_fn(self, em, a):
         core = skip(a)
         if core.get("kind") == "LambdaExpr":
-            return self.lambda_expr(em, core)
+            return em.lift_lambda(core, heap=True)  # stored in a std::function: captures must outlive the block
         act = self.mapped(em, a)
+        if act == "struct vf_fn":
+            return em.E(a)  # closure variable
         if act == "vf_fnptr":
             return "((struct vf_fn){(vf_fnptr)%s, 0})" % em.E(a)
         return None
